@@ -20,9 +20,107 @@ fn ops_alphabet(nkeys: u64) -> Vec<J> {
     v
 }
 
+/// "for every gap": a table deep enough for three levels; one cursor session per gap inserts one to three new keys
+/// there (insert_before, insert_after, or both directions), every accepted key is then looked up by key, and the
+/// table is scanned at intervals; at the end the transaction commits and a reader scans and looks everything up.
+fn sweep(args: &Args) {
+    let seed = args.u64("seed", 1);
+    let nconf = args.u64("configs", 3);
+    let nbase = args.u64("base", 700);
+    let chunks = args.u64("chunks", 8) as usize;
+    let prefix = args.str("out-prefix", "curs");
+    let mut writers: Vec<TraceWriter> = (0..chunks).map(|c| TraceWriter::create(&format!("{prefix}-{c}.ndjson"))).collect();
+    let (mut sessions, mut events, mut panics, mut accepted, mut refused, mut run) = (0u64, 0u64, 0u64, 0u64, 0u64, 0u64);
+    for conf in 0..nconf {
+        let page_size = [512usize, 512, 1024, 4096][(conf % 4) as usize];
+        let (kt, vt) = [("u64", "bytes"), ("bytes", "bytes"), ("str", "bytes"), ("u64", "u64")][((conf + seed) % 4) as usize];
+        let vlens = default_vlens(page_size);
+        // value classes: about 2-3 entries per leaf (deep trees from few keys), a small one, and one larger than a page
+        let classes: [u32; 3] = [[7, 4, 13], [8, 3, 12], [6, 5, 14]][(conf % 3) as usize];
+        let spacing = 4u64; // base keys at multiples of 4: room for three new keys in every gap
+        let nkeys = (nbase + 2) * spacing;
+        for variant in 0..3u64 {
+            let cfg = Config { seed: seed + conf, page_size, region_size: None, cache_size: 1 << 22, nkeys: nkeys as usize, vlens: vlens.clone(), sel: None };
+            let w = &mut writers[(run as usize) % chunks];
+            let mut i = 0u64;
+            let mut emit = |w: &mut TraceWriter, evs: Vec<J>, events: &mut u64, panics: &mut u64, accepted: &mut u64, refused: &mut u64| {
+                for mut ev in evs {
+                    if ev["e"] == "cur" && ev["op"].as_str().is_some_and(|o| o.starts_with("ins")) {
+                        if ev["r"].get("ok").is_some() { *accepted += 1 } else { *refused += 1 }
+                    }
+                    if ev.get("r").is_some_and(|r| r.get("panic").is_some()) {
+                        *panics += 1;
+                    }
+                    ev["run"] = json!(run);
+                    ev["i"] = json!(i);
+                    i += 1;
+                    *events += 1;
+                    w.write(&ev);
+                }
+            };
+            emit(w, vec![json!({"e": "reset", "cfg": cfg.to_json(), "sweep": variant})], &mut events, &mut panics, &mut accepted, &mut refused);
+            let mut ex = Exec::new(cfg);
+            let val = |j: u64, c: usize| u64::from(classes[c]) * u64::from(redb_verif_harness::codec::VBASE) + j;
+            let mut steps = vec![json!({"e": "bw"}), json!({"e": "open", "n": "a", "kind": "t", "kt": kt, "vt": vt})];
+            for j in 1..=nbase {
+                steps.push(json!({"e": "ins", "n": "a", "k": j * spacing, "v": if vt == "u64" { j } else { val(j, 0) }}));
+            }
+            steps.push(json!({"e": "close", "n": "a"}));
+            steps.push(json!({"e": "commit"}));
+            steps.push(json!({"e": "bw"}));
+            steps.push(json!({"e": "open", "n": "a", "kind": "t", "kt": kt, "vt": vt}));
+            for s in steps {
+                let evs = ex.step(&s);
+                emit(w, evs, &mut events, &mut panics, &mut accepted, &mut refused);
+            }
+            // one session per gap: gap g lies before base key (g+1)*spacing
+            for g in 0..=nbase {
+                let lo = g * spacing; // base key before the gap (0: none)
+                let v = |d: u64| if vt == "u64" { lo + d } else { val(lo + d, (d as usize + g as usize) % 3) };
+                let (b, upper, ops) = match variant {
+                    0 => (json!({"t": "e", "k": lo}), false, vec![json!({"op": "ins_before", "k": lo + 1, "v": v(1)})]),
+                    1 => (json!({"t": "e", "k": lo + spacing}), true, vec![json!({"op": "ins_after", "k": lo + 3, "v": v(3)}), json!({"op": "ins_after", "k": lo + 2, "v": v(2)})]),
+                    _ => (
+                        json!({"t": "i", "k": lo + 2}),
+                        g % 2 == 0,
+                        vec![json!({"op": "ins_before", "k": lo + 1, "v": v(1)}), json!({"op": "ins_after", "k": lo + 3, "v": v(3)}), json!({"op": "ins_before", "k": lo + 2, "v": v(2)})],
+                    ),
+                };
+                let evs = ex.step(&json!({"e": "cursor", "n": "a", "b": b, "upper": upper, "ops": ops, "end": if g % 5 == 0 { "drop" } else { "close" }}));
+                emit(w, evs, &mut events, &mut panics, &mut accepted, &mut refused);
+                sessions += 1;
+                if g % 97 == 0 {
+                    let evs = ex.step(&json!({"e": "range", "src": "w", "n": "a", "lo": {"t": "u"}, "hi": {"t": "u"}, "cnt": 100000, "rev": g % 2 == 1, "alt": false}));
+                    emit(w, evs, &mut events, &mut panics, &mut accepted, &mut refused);
+                }
+            }
+            let mut tail = vec![json!({"e": "len", "src": "w", "n": "a"}), json!({"e": "close", "n": "a"}), json!({"e": "commit"}), json!({"e": "br", "h": "r1"})];
+            for k in (0..nkeys).step_by(3) {
+                tail.push(json!({"e": "get", "src": "r1", "n": "a", "kind": "t", "kt": kt, "vt": vt, "k": k}));
+            }
+            tail.push(json!({"e": "range", "src": "r1", "n": "a", "kind": "t", "kt": kt, "vt": vt, "lo": {"t": "u"}, "hi": {"t": "u"}, "cnt": 100000, "rev": false, "alt": false}));
+            tail.push(json!({"e": "dr", "h": "r1"}));
+            for s in tail {
+                let evs = ex.step(&s);
+                emit(w, evs, &mut events, &mut panics, &mut accepted, &mut refused);
+            }
+            ex.teardown();
+            run += 1;
+        }
+    }
+    for w in writers {
+        w.finish();
+    }
+    println!("{}", json!({"sessions": sessions, "events": events, "panics": panics, "histories": run, "inserts_accepted": accepted, "inserts_refused": refused,
+                          "base_keys": nbase, "configs": nconf, "alphabet": 0, "chunks": chunks, "mode": "sweep"}));
+}
+
 fn main() {
     let args = Args::parse();
     quiet_panics();
+    if args.str("mode", "enum") == "sweep" {
+        return sweep(&args);
+    }
     let nk = args.u64("keys", 4);
     let len = args.u64("len", 2) as usize;
     let nconf = args.u64("configs", 3);
